@@ -24,6 +24,8 @@ WORKERS = int(os.environ.get('VERIF_TLC_WORKERS', '8'))
 # SIGTERM / SIGINT / SIGHUP (a killed check must not leave a JVM behind)
 # ------------------------------------------------------------------------------------------------
 TLC_TIMEOUT = int(os.environ.get('VERIF_TLC_TIMEOUT', '1500'))
+# recursive operators on matrices of a few hundred entries need more than the default thread stack of the JVM
+JVM_ENV = dict(JAVA_TOOL_OPTIONS='-Xss32m')
 
 
 def _descendants(pid):
@@ -419,7 +421,7 @@ def step(ctx, im, marks, l, hist, n, cfg):
 
 # ------------------------------------------------------------------------------------------------
 def run_mc(ctx, name, configs, maxops, catlimit, stride):
-    res, dump, d = tlc.mc('MPOAlgebra', alg_cfg(configs, maxops, catlimit), dump=True, workers=WORKERS, timeout=TLC_TIMEOUT)
+    res, dump, d = tlc.mc('MPOAlgebra', alg_cfg(configs, maxops, catlimit), dump=True, workers=WORKERS, timeout=TLC_TIMEOUT, env=JVM_ENV)
     ctx.add_mc(name, res)
     if res.violated:
         ctx.violation(dict(kind='mc', spec='MPOAlgebra', invariant=res.violated[0]), dict(trace=tlaval.to_jsonable(res.error_trace)[-3:]))
@@ -443,7 +445,7 @@ def run_mc(ctx, name, configs, maxops, catlimit, stride):
 
 def run_sim(ctx, configs, num, depth):
     res, traces, d = tlc.simulate('MPOAlgebra', alg_cfg(configs, depth, 0, props=False), num=max(1, num // 4), depth=depth + 1,
-                                  seed=ctx.seed + 3, workers=4, timeout=TLC_TIMEOUT)
+                                  seed=ctx.seed + 3, workers=4, timeout=TLC_TIMEOUT, env=JVM_ENV)
     shutil.rmtree(d, ignore_errors=True)
     n = 0
     for j, tr in enumerate(traces):
@@ -491,7 +493,7 @@ def check(ctx):
                'compression methods are checked as relations: |O psi - result|^2 <= reported eps + 1e-8 (no truncation requested)')
     only = ctx.only
     if not only or 'mc' in only:
-        res = run_mc(ctx, 'MPOAlgebra-depth2', 'ConfigsQuick' if quick else 'ConfigsFull', 2, 0, 8 if quick else 3)
+        res = run_mc(ctx, 'MPOAlgebra-depth2', 'ConfigsQuick' if quick else 'ConfigsFull', 2, 1 if quick else 0, 4 if quick else 3)
         runs = [res]
         if not quick:
             runs.append(run_mc(ctx, 'MPOAlgebra-depth3', 'ConfigsQuick', 3, 1, 4))
@@ -504,7 +506,7 @@ def check(ctx):
         if missing:
             raise core.MachineryError('actions never taken in the MC runs (vacuous): %r' % missing)
     if not only or 'sim' in only:
-        run_sim(ctx, 'ConfigsQuick' if quick else 'ConfigsFull', 80 if quick else 1500, 6)
+        run_sim(ctx, 'ConfigsQuick' if quick else 'ConfigsFull', 160 if quick else 1500, 6)
     if not only or 'canary' in only:
         run_canary(ctx)
     ctx.exhaustive = False
